@@ -929,6 +929,7 @@ func (interp *Interpreter) cfg(root *node, sc *scope, importPath, pkgName string
 			nilSym := interp.universe.sym[nilIdent]
 			c0, c1 := n.child[0], n.child[1]
 
+			u0, u1 := isUntypedExpr(c0), isUntypedExpr(c1)
 			err = check.binaryExpr(n)
 			if err != nil {
 				break
@@ -992,7 +993,19 @@ func (interp *Interpreter) cfg(root *node, sc *scope, importPath, pkgName string
 				n.findex = sc.add(n.typ)
 			}
 			if n.typ != nil && !n.typ.untyped {
-				fixUntyped(n, sc)
+				if !isShiftNode(n) {
+					// The type check gives an untyped operand the type of the other one.
+					if u0 {
+						fixOperand(c0, sc)
+					}
+					if u1 {
+						fixOperand(c1, sc)
+					}
+				}
+				if !isComparisonAction(n.action) {
+					// The operands of a comparison do not have the type of its result.
+					fixUntyped(n, sc)
+				}
 			}
 
 		case indexExpr:
@@ -2336,6 +2349,27 @@ func fixUntyped(nod *node, sc *scope) {
 		}
 		return true
 	}, nil)
+}
+
+// isUntypedExpr returns true if n is an untyped non-constant expression,
+// i.e. a shift of an untyped constant by a variable count.
+func isUntypedExpr(n *node) bool {
+	for n.kind == parenExpr && len(n.child) > 0 {
+		n = n.lastChild()
+	}
+	return n.kind == binaryExpr && n.typ != nil && n.typ.untyped && !n.rval.IsValid()
+}
+
+// fixOperand propagates the type given by the type check to the operand nod,
+// previously untyped, to its frame entry and to its untyped sub-expressions.
+func fixOperand(nod *node, sc *scope) {
+	if nod.typ.untyped {
+		return
+	}
+	if nod.findex >= 0 {
+		sc.types[nod.findex] = nod.typ.frameType()
+	}
+	fixUntyped(nod, sc)
 }
 
 func compDefineX(sc *scope, n *node) error {
